@@ -1,8 +1,8 @@
 (* The hypotheses under which bin/check applies its oracles (Corr/CoreCorr.v: name_ok,
    tree_names_ok = in_hyp_names) imply the hypotheses of the theorems (Proofs/ConvertProofs.v),
    so that the theorem about an oracle covers every case on which the check evaluates it. *)
-From XSG.Model Require Import Strings UnicodeTables Chars Convert Necessity Element Render.
-From XSG.Proofs Require Import StringsProofs ElementProofs ConvertProofs WfProofs.
+From XSG.Model Require Import Strings UnicodeTables Chars Convert Necessity Element Parser Dom Spec Render.
+From XSG.Proofs Require Import StringsProofs ElementProofs ConvertProofs WfProofs ReprDefs AdmitProofs.
 From XSG.Corr Require Import Common Oracles CoreCorr.
 From Coq Require Import Lia String.
 Open Scope list_scope.
@@ -94,3 +94,23 @@ Theorem oracle_wf o e :
   literal_ok (attribute_prefix o) = true -> literal_ok (text_identifier o) = true ->
   wf_b (map erase (render_abs o e)) = true.
 Proof. intros U H K. apply render_wf; auto. now apply corr_tree_names_ok. Qed.
+
+(* the C01 oracle's hypothesis names_plain_b is the theorems' names_plain *)
+Lemma names_plain_same e : CoreCorr.names_plain_b e = AdmitProofs.names_plain e.
+Proof.
+  induction e as [n t x k a ch p IH] using element_ind'.
+  cbn [CoreCorr.names_plain_b AdmitProofs.names_plain].
+  induction ch as [|c r IHr]; [reflexivity|].
+  inversion IH as [|? ? Hc Hr]; subst. rewrite Hc, (IHr Hr). reflexivity.
+Qed.
+
+(* the C01 oracle under exactly the hypotheses bin/check evaluates it with (in_hyp_admits) *)
+Theorem oracle_admits docs m e :
+  docs <> [] -> Forall (Forall ReprDefs.wf_node) docs -> Forall (fun p => ReprDefs.elem_names p = [m]) docs ->
+  Dom.run_dom docs = Some e ->
+  clash_free_tree e = true -> CoreCorr.names_plain_b e = true ->
+  forall d, In d docs -> admits_b quick_xml_de (map erase (render_abs quick_xml_de e)) d = true.
+Proof.
+  intros H1 H2 H3 H4 H5 H6. rewrite names_plain_same in H6.
+  now apply (render_admits_quick_xml docs m e).
+Qed.
